@@ -10,6 +10,7 @@ import (
 	"go/types"
 	"math"
 	"net/url"
+	"path/filepath"
 	"regexp"
 	"sort"
 	"strconv"
@@ -992,6 +993,24 @@ func init() {
 		return iface{}
 	})
 
+	reg("path/filepath.Abs", func(fr *frame, a []value) value {
+		i := fr.i
+		if s, ok := a[0].(string); ok {
+			r, err := filepath.Abs(s)
+			if err != nil {
+				return tuple{"", i.newError(err.Error())}
+			}
+			return tuple{r, iface{}}
+		}
+		bs := strBytes(a[0])
+		if len(bs) == 0 {
+			panic(unsupported{"filepath.Abs of empty symbolic path"})
+		}
+		// contract: an absolute, clean path is returned unchanged
+		i.noteAssume("filepath.Abs on symbolic path: the path is absolute and clean (identity)")
+		i.assumeTerm(i.byteEq(bs[0], uint8('/')), "filepath.Abs absolute")
+		return tuple{a[0], iface{}}
+	})
 	reg("net/url.Parse", func(fr *frame, a []value) value {
 		i := fr.i
 		if _, ok := a[0].(string); !ok {
